@@ -13,10 +13,12 @@
     edits is such a script, so the theorems quantify over all of them.
 
     Partial (named so): the MySQL / PostgreSQL instances (DiffDialects.v) cover the
-    attributes of the edit catalogue only; the index script requires that a dropped
-    index with a database-generated name has no similar unnamed index on the other
-    side (the positive similarUnnamedIndex match is tied, not characterised);
-    RealmDiff, views, triggers are outside the model.
+    attributes of the edit catalogue only; the index *script* theorems (2b, 2f, 3a) require
+    that a dropped index with a database-generated name has no similar unnamed index on
+    the other side -- the closed form 5a and the composition 9 do not.
+    Since round 5 RealmDiff and schema attributes (8), table attributes and check flags of
+    MySQL / PostgreSQL (10, 11) and views (12) are inside the model, over wrapper records
+    next to Diff/Schema.v, PostgreSQL enum objects too (13); triggers, functions stay outside.
 
     FULL STATEMENT aimed at (C02_exact): for every well-formed s and every independent
     finite set es of elementary edits, diff s (apply es s) = expected es up to order
@@ -29,7 +31,7 @@
     C02_exact: pairs in which SQLite's Normalize rewrites something (autoindex names,
     re-symbolled foreign keys), and table attributes of MySQL / PostgreSQL. *)
 From Coq Require Import List NArith Bool Arith Permutation.
-From Atlas Require Import Base.Bytes Diff.Schema Diff.DiffModel Diff.DiffSqlite Diff.DiffDialects Diff.DiffProofs Diff.DiffSqliteProofs Diff.DiffDialectsProofs Diff.DiffSqliteCopy Diff.DiffMysqlVariants Diff.DiffMysqlVariantsProofs Diff.DiffUnnamedProofs Diff.DiffSqliteNumFk Diff.DiffRealm Diff.DiffRealmProofs Diff.DiffSqliteExact Diff.DiffTableAttrs Diff.DiffTableAttrsProofs Diff.DiffCheckFlags Diff.DiffCheckFlagsProofs Diff.DiffViews Diff.DiffViewsProofs.
+From Atlas Require Import Base.Bytes Diff.Schema Diff.DiffModel Diff.DiffSqlite Diff.DiffDialects Diff.DiffProofs Diff.DiffSqliteProofs Diff.DiffDialectsProofs Diff.DiffSqliteCopy Diff.DiffMysqlVariants Diff.DiffMysqlVariantsProofs Diff.DiffUnnamedProofs Diff.DiffSqliteNumFk Diff.DiffRealm Diff.DiffRealmProofs Diff.DiffSqliteExact Diff.DiffTableAttrs Diff.DiffTableAttrsProofs Diff.DiffCheckFlags Diff.DiffCheckFlagsProofs Diff.DiffViews Diff.DiffViewsProofs Diff.DiffObjects Diff.DiffObjectsProofs.
 Import ListNotations.
 
 (** 1a. Generic: for every driver whose callbacks report nothing on identical
@@ -943,6 +945,26 @@ Theorem C02_view_def_changed :
   noident (trim_view_extra a) = noident (trim_view_extra b).
 Proof. exact body_def_changed_spec. Qed.
 
+(** 13. PostgreSQL enum objects (Schema.Objects; postgres SchemaObjectDiff; DiffObjects.v): exact
+    on every script of enums keyed by the type name -- one DropObject per dropped enum, one
+    ModifyObject (carrying both value lists) per kept enum whose value lists differ in any way
+    (length, order, spelling), one AddObject per added enum; the same enums listed in any other
+    order give nothing. *)
+Theorem C02_exact_objects :
+  forall from to ps adds,
+  from = map fst ps -> script_ok e_T ps adds -> Permutation to (kept ps ++ adds) ->
+  exists adds', Permutation adds adds' /\
+    pg_schema_object_diff from to = obj_expected ps ++ map (fun e => AddObject (e_T e)) adds'.
+Proof. exact pg_schema_object_diff_exact. Qed.
+
+Theorem C02_objects_self_empty :
+  (forall l, NoDup (map e_T l) -> pg_schema_object_diff l l = []) /\
+  (forall e1 e2, e_T e2 = e_T e1 ->
+     pg_schema_object_diff [e1] [e2] =
+     if negb (strs_eqb (e_values e1) (e_values e2)) then [ModifyObject (e_T e1) (e_values e1) (e_values e2)] else []) /\
+  (forall a b, strs_eqb a b = true <-> a = b).
+Proof. exact (conj pg_schema_object_diff_self (conj enum_modify_iff strs_eqb_eq)). Qed.
+
 (** * Non-vacuity: concrete inputs (vm_compute) *)
 Definition x_a : column := mkColumn [97]%N 2 [105;110;116]%N false None None None.
 Definition x_b : column := mkColumn [98]%N 3 [116;101;120;116]%N true (Some (DLit [39;120;39]%N)) None None.
@@ -1220,6 +1242,18 @@ Example C02_ex_views :
     [x_view x_def1 false None] [x_view x_def1 false (Some [99]%N)] = [].
 Proof. repeat split; vm_compute; reflexivity. Qed.
 
+(* round 5: enum objects: status(a,b) gets a value, kind is dropped, fresh is added; AddObject skipped *)
+Example C02_ex_objects :
+  pg_schema_diff_o [] (fun _ => false)
+    (mkSchemaO x_s [mkEnumO [115]%N [[97]%N; [98]%N]; mkEnumO [107]%N [[120]%N]])
+    (mkSchemaO x_s [mkEnumO [102]%N [[112]%N]; mkEnumO [115]%N [[97]%N; [98]%N; [99]%N]]) =
+  Some [SO (ModifyObject [115]%N [[97]%N; [98]%N] [[97]%N; [98]%N; [99]%N]); SO (DropObject [107]%N); SO (AddObject [102]%N)] /\
+  pg_schema_diff_o [] (fun t => match t with OtAddObject => true | _ => false end)
+    (mkSchemaO x_s [mkEnumO [115]%N [[97]%N; [98]%N]])
+    (mkSchemaO x_s [mkEnumO [102]%N [[112]%N]; mkEnumO [115]%N [[98]%N; [97]%N]]) =
+  Some [SO (ModifyObject [115]%N [[97]%N; [98]%N] [[98]%N; [97]%N])].
+Proof. split; vm_compute; reflexivity. Qed.
+
 Print Assumptions C02_self_empty.
 Print Assumptions C02_copy_empty.
 Print Assumptions C02_perm_empty.
@@ -1294,3 +1328,5 @@ Print Assumptions C02_exact_table_checks.
 Print Assumptions C02_exact_views.
 Print Assumptions C02_views_self_empty.
 Print Assumptions C02_view_def_changed.
+Print Assumptions C02_exact_objects.
+Print Assumptions C02_objects_self_empty.
